@@ -278,3 +278,54 @@ Proof.
   destruct (spec_toks_chain _ _ Hsrc) as (_ & Hch).
   symmetry. eapply tchunks_mweight; [eapply chain_shaped, Hch | apply inv_init_w | exact Ht].
 Qed.
+
+(* ---------- any splitting of the source into lines (how the .p8 reader feeds the lexer) ---------- *)
+From PV Require Proofs.LexerChunk.
+
+Lemma luamin_text_chunking cfg ls : Forall LexerChunk.ends_lf (removelast ls) ->
+  luamin_text cfg ls = luamin_text cfg [concat ls].
+Proof. intros H. unfold luamin_text. rewrite (LexerChunk.model_lex_chunking ls H). reflexivity. Qed.
+
+Theorem luamin_lines cfg ls ss : Forall LexerChunk.ends_lf (removelast ls) -> Forall byte (concat ls) ->
+  spec_toks (concat ls) = Some ss ->
+  exists out, luamin_text cfg ls = Ok out /\ holds_C01 (concat ls) out = true /\ holds_C19 (concat ls) out = true.
+Proof.
+  intros Hl HB H. rewrite (luamin_text_chunking cfg ls Hl). apply (luamin_end_to_end cfg (concat ls) ss HB H).
+Qed.
+
+Theorem luamin_lines_all cfg ls out : Forall LexerChunk.ends_lf (removelast ls) -> Forall byte (concat ls) ->
+  luamin_text cfg ls = Ok out -> holds_C01 (concat ls) out = true /\ holds_C19 (concat ls) out = true.
+Proof.
+  intros Hl HB H. rewrite (luamin_text_chunking cfg ls Hl) in H. apply (luamin_holds_all cfg (concat ls) out HB H).
+Qed.
+
+Theorem luamin_lines_count cfg ls ss : Forall LexerChunk.ends_lf (removelast ls) -> Forall byte (concat ls) ->
+  spec_toks (concat ls) = Some ss ->
+  exists ts out ts', model_lex ls = Ok ts /\ luamin_text cfg ls = Ok out /\ model_lex [out] = Ok ts' /\
+    token_count ts' = token_count ts.
+Proof.
+  intros Hl HB H. rewrite (luamin_text_chunking cfg ls Hl), (LexerChunk.model_lex_chunking ls Hl).
+  apply (luamin_stats_count cfg (concat ls) ss HB H).
+Qed.
+
+(* ---------- the __lua__ text of the written cart ---------- *)
+Lemma p8_lua_text_cases chunks : p8_lua_text chunks = concat chunks \/ p8_lua_text chunks = concat chunks ++ [10].
+Proof.
+  unfold p8_lua_text. destruct (match chunks with [] => false | _ :: _ => ends_with_lf (last chunks []) end);
+    [left; apply app_nil_r | right; reflexivity].
+Qed.
+
+Theorem luamin_cart cfg ls out : Forall LexerChunk.ends_lf (removelast ls) -> Forall byte (concat ls) ->
+  luamin_cart_text cfg ls = Ok out -> holds_C01 (concat ls) out = true /\ holds_C19 (concat ls) out = true.
+Proof.
+  intros Hl HB H. unfold luamin_cart_text in H. rewrite (LexerChunk.model_lex_chunking ls Hl) in H.
+  destruct (model_lex [concat ls]) as [ts|e] eqn:Hm; cbn [bind] in H; [|discriminate].
+  destruct (minify cfg ts) as [cs|e] eqn:Hc; cbn [bind] in H; [|discriminate]. injection H as <-.
+  destruct (spec_toks (concat ls)) as [ss|] eqn:Hsrc.
+  - destruct (lexer_agrees_model _ _ HB Hsrc) as (ts' & Hm' & Ha). rewrite Hm in Hm'. injection Hm' as <-.
+    pose proof Hc as Hg. unfold minify in Hg. rewrite Ha in Hg.
+    destruct (p8_lua_text_cases cs) as [-> | ->].
+    + split; [eapply holds_C01_luamin | eapply holds_C19_luamin]; eassumption.
+    + eapply luamin_nl; eassumption.
+  - unfold holds_C01, holds_C19. rewrite Hsrc. auto.
+Qed.
